@@ -34,6 +34,9 @@ pub enum Trace {
     Recorder(crate::recorder::RecorderTrace),
     Rules(crate::rules::RulesTrace),
     Bytes(crate::crash::BytesTrace),
+    /// a history: the earlier traces are executed first, in the same process, and only the last one is
+    /// judged (defects that need state carried over from an earlier call)
+    Seq(Vec<Trace>),
 }
 
 #[derive(Clone, Debug, Serialize, Deserialize)]
@@ -244,10 +247,10 @@ pub fn exec_supply(check: &str, t: &SupplyTrace, scratch: &Scratch, rec: &mut Ru
 fn faults_for(check: &str) -> (&'static [F], &'static [F]) {
     // (primary, secondary)
     const ALL_COUNT: &[F] = &[
-        F::Drop, F::Outsider, F::WrongStep, F::OwnerAsFunc, F::SigSwap, F::SigFlip, F::LinkEdit, F::Relabel, F::Misfile, F::Unmet, F::Unlisted,
+        F::Drop, F::Outsider, F::WrongStep, F::OwnerAsFunc, F::SigSwap, F::SigFlip, F::LinkEdit, F::Relabel, F::Misfile, F::Unmet, F::Unlisted, F::Misattributed,
     ];
     const LAYOUT: &[F] = &[
-        F::LNoSig, F::LForged, F::LCorrupt, F::LEdit, F::LEdit, F::CallerEmpty, F::CallerSuperset, F::CallerDisjoint, F::CallerAlias,
+        F::LNoSig, F::LForged, F::LCorrupt, F::LEdit, F::LEdit, F::LSigDup, F::CallerEmpty, F::CallerSuperset, F::CallerDisjoint, F::CallerAlias, F::CallerJsonAlias,
     ];
     const BYTES: &[F] = &[F::ByteFlip, F::ByteTrunc, F::ByteOverwrite, F::DupFile, F::SigDup, F::SigShuf];
     const DELEG: &[F] = &[F::SubWrongSigner, F::SubExpired, F::SubInner, F::SubInner, F::WrongDir, F::ATamper];
@@ -297,6 +300,10 @@ pub fn run_supply_check(check: &str, tier: Tier, seed: u64, index: u64, scratch:
     let o = run_supply(&t, scratch);
     let accepted = o.no_layout.is_none() && o.verdicts.iter().all(|v| v.ok);
     if !accepted {
+        // counted, and reported in the evidence; the faulted world is judged all the same: the oracles
+        // are necessary conditions for Ok, which do not depend on the baseline having been accepted
+        // (a change that makes the verifier reject valid worlds and accept the matching invalid ones —
+        // e.g. looking for delegated links in the wrong directory — would otherwise hide behind this)
         rec.evaluations = before + 1;
         rec.vacuous += 1;
         let why = o.no_layout.clone().unwrap_or_else(|| o.verdicts.first().map(|v| v.short()).unwrap_or_default());
@@ -310,8 +317,8 @@ pub fn run_supply_check(check: &str, tier: Tier, seed: u64, index: u64, scratch:
                 rec.cross.push(f);
             }
         }
-        return;
     }
+    let baseline_trace = t.clone();
     let (primary, secondary) = faults_for(check);
     let n_faults = 1 + fr.weighted(&[60, 30, 10]);
     let mut applied = 0;
@@ -326,7 +333,12 @@ pub fn run_supply_check(check: &str, tier: Tier, seed: u64, index: u64, scratch:
     }
     let sim = t.clock[0].0 - plan.now;
     rec.sim_seconds += sim.abs() as f64;
+    let before = rec.own.len();
     exec_supply(check, &t, scratch, rec, seed, index);
+    // the fault-free world was verified first in this process: keep it as the violation's history
+    for v in rec.own.iter_mut().skip(before) {
+        v.trace = Trace::Seq(vec![Trace::Supply(baseline_trace.clone()), v.trace.clone()]);
+    }
 }
 
 /// C13: worlds biased to the dangerous shape, verified N times under different hash keys / arrival orders.
@@ -428,5 +440,15 @@ pub fn replay_trace(prop: &str, trace: &Trace, scratch: &Scratch) -> Vec<Finding
         Trace::Recorder(t) => crate::recorder::replay(prop, t, scratch, &mut rec),
         Trace::Rules(t) => crate::rules::replay(prop, t, scratch, &mut rec),
         Trace::Bytes(t) => crate::crash::replay(prop, t, &mut rec),
+        Trace::Seq(ts) => {
+            let mut last = vec![];
+            for (i, t) in ts.iter().enumerate() {
+                let f = replay_trace(prop, t, scratch);
+                if i + 1 == ts.len() {
+                    last = f;
+                }
+            }
+            last
+        }
     }
 }
